@@ -99,7 +99,7 @@ CLAIMS = {
          'Modulus::new / set_value store that answer, the bit count and the Barrett constants equal to their definitions, and refuse values of more than 61 bits or equal to 1; get_power_of_two returns k exactly when the value is 2^k and -1 otherwise; '
          'EncryptionParameters::compute_parms_id hashes exactly the words (scheme, N, q_1..q_k, t) in that order and refuses the reserved all-zero identifier, so the identifier is a deterministic function of the parameters (collision freedom is SHA-256\'s, assumed); set_poly_modulus_degree / set_coeff_modulus / set_plain_modulus each leave the identifier equal to the hash of the parameters they return, in whatever order they are called. '
          'HeContext::validate (unit c13_validate, the whole function): it never panics, and it leaves parameter_error == Success only if every rung of the ladder held - scheme set, 1..64 moduli each of 2..60 bits, degree a power of two in 2..131072, total bit count (the exact bit length of the product) within the security table (the table is written down a second time as the specification and CoeffModulus::max_bit_count / he_standard_params_* are proved against it), RNSBase and NTT-table construction succeeded, and for BFV/BGV a 2..60-bit plain modulus coprime to every q_i and smaller than their product, for CKKS a zero plain modulus; on success using_fft / using_ntt are set, using_fast_plain_lift implies every q_i > t, using_descending_modulus_chain is exactly q_1 > .. > q_k, and the lifting constants equal their definitions ((t+1)/2 and q_i - t; 2^63 and the residue of -2^64). '
-         'ASSUMED (external constructors with stated contracts): RNSBase::new succeeds only for pairwise coprime moduli, NTTTables::new / create_ntt_tables only when the 2N-th root exists, multiply_many_u64 returns the product; RNSTool::new, GaloisTool::new, divide_uint, decompose are opaque, so the remaining precomputed constants are not compared with definitions. '
+         'The contracts validate assumes of its callees are proved where the callee is within reach: RNSBase::new accepts only non-empty, zero-free, pairwise coprime bases (unit c13_rnsbase, with its product/inverse builder `initialize` external), NTTTables::new only with q = 1 mod 2N (unit c09_tables), multiply_many_u64 returns the exact product (unit c08_mul); ASSUMED: create_ntt_tables (an iterator over NTTTables::new); RNSTool::new, GaloisTool::new, divide_uint, decompose are opaque, so the remaining precomputed constants are not compared with definitions. '
          'Not covered: the chain construction in HeContext::new / create_next_context_data (HashMap, Arc::as_ptr().cast_mut(), iterator closures) - the chain model used by the other units (specs/common/ctx_env.vinc) remains an ASSUMPTION; CoeffModulus::create (HashMap).', '5 C13'),
  'C15': ('Serializers without context (scalars, Vec<T>, Modulus, ParmsID, SchemeType, Plaintext, EncryptionParameters, byte-width packing helpers) are verified '
          'against an abstract model of std::io::{Read,Write} quantified over all implementations: Ok implies the complete encoding was written / exactly one encoding '
